@@ -195,7 +195,7 @@ Section Lazy.
       destruct (psym_eqb (s, a) pred) eqn:E.
       + apply psym_eqb_eq in E. subst pred. cbn [snd] in Hq.
         pose proof (filter_cons_same ((s, a), fs) rows St Ne) as X. cbn [fst snd] in X.
-        rewrite X. clear X.
+        refine (eq_trans _ (f_equal Some (eq_sym X))). clear X.
         destruct a as [|k].
         * (* zero arity: one fact or none *)
           destruct fs; [|discriminate]. cbn [lz_answer fst].
@@ -215,7 +215,7 @@ Section Lazy.
              rewrite (read_pred_ok const const_eqb print parse (S k) fs (r :: rows) (body_lines St) Hq Hrows).
              reflexivity.
       + pose proof (filter_cons_other (pred, fs) (s, a) rows St E) as X. cbn [fst snd] in X.
-        rewrite X. clear X.
+        refine (eq_trans _ (f_equal Some (eq_sym X))). clear X.
         destruct a as [|k].
         * change (SimpleColumnProofs.body_lines const print (((s, O), rows) :: St)) with (body_lines St).
           apply IH; assumption.
@@ -226,7 +226,7 @@ Section Lazy.
             with (Z.of_nat (length (pre ++ col_lines rows 0 (S k)))).
           -- apply IH; assumption.
           -- rewrite app_length, col_lines_length. unfold SimpleColumn.count.
-             rewrite Nat2Z.inj_add, Nat2Z.inj_mul. lia.
+             rewrite Nat2Z.inj_add, Nat2Z.inj_mul. f_equal. apply Z.mul_comm.
   Qed.
 
   (* ------------------------------------------------------------ whole files *)
@@ -251,9 +251,10 @@ Section Lazy.
     split.
     - unfold lz_new. rewrite SC, (read_header_ok const print parse St' (body_lines St') F' L'). reflexivity.
     - rewrite lz_get_facts_answer. cbn [lz_preds lz_data]. rewrite SC, map_length.
-      replace (1 + Z.of_nat (length St')) with (Z.of_nat (length (header St'))).
-      + apply locate_answer; assumption.
-      + unfold SimpleColumn.header. cbn [length]. rewrite map_length. lia.
+      pose proof (locate_answer q Hq St' (header St') F' N') as A.
+      assert (HL : Z.of_nat (length (header St')) = 1 + Z.of_nat (length St')).
+      { unfold SimpleColumn.header. cbn [length]. rewrite map_length. lia. }
+      rewrite HL in A. exact A.
   Qed.
 
   (* the eager round trip with admissibility stated on the store itself *)
